@@ -8,6 +8,7 @@ import (
 	"sort"
 	"strings"
 	"sync"
+	"sync/atomic"
 	"testing"
 	"time"
 
@@ -1888,11 +1889,248 @@ func c14ConcurrentHardened(v *verifOut) {
 	}
 }
 
+// ---------------------------------------------------------------------------------------------
+// C14, part 4: the wake-up signal.  (1) deterministic, kernel-checked: a push must leave its signal
+// behind on ready() until it is received (otherwise a consumer that has just seen the queue empty goes to
+// sleep with an entry pending); (2) stress: one event in flight at a time against a Run consumer -- every
+// added event must be handled without a further AddEvent; (3) a slow prioritised run-in-AddEvent handler
+// and an ordinary handler for the same event, with Run as a concurrent consumer: prioritised first.
+// ---------------------------------------------------------------------------------------------
+
+func c14ReadySignalStream(v *verifOut) {
+	s := v.Stream("ready", "s_mismatches", 1500)
+	run := func(stream string, capacity int, ops []string) {
+		q := newQueue(uint(capacity))
+		meta := map[string]any{"stream": stream, "capacity": capacity, "ops": ops}
+		var deque []uint64
+		token := false
+		next := uint64(0)
+		gops := make([]string, 0, len(ops))
+		gouts := make([]string, 0, len(ops))
+		for i, o := range ops {
+			switch o {
+			case "push":
+				next++
+				d := q.push(next)
+				has, val := c14AsN(d)
+				gops = append(gops, "SOp (QPush (Some "+gN(next)+"))")
+				gouts = append(gouts, "SOut (OPushed "+c14OptN(has, val)+")")
+				if len(deque) >= capacity {
+					deque = deque[1:]
+				}
+				deque = append(deque, next)
+				token = true
+			case "pop":
+				x, ok := q.pop()
+				has, val := c14AsN(x)
+				gops = append(gops, "SOp QPop")
+				gouts = append(gouts, "SOut (OPopped "+c14OptN(has, val)+" "+gBool(ok)+")")
+				if len(deque) > 0 {
+					deque = deque[1:]
+				}
+			case "len":
+				gops = append(gops, "SOp QLen")
+				gouts = append(gouts, "SOut (OLen "+gZ(int64(q.len()))+")")
+			default: // poll: what a consumer entering `select { case <-ready(): ... }` finds
+				got := false
+				select {
+				case <-q.ready():
+					got = true
+				default:
+				}
+				gops = append(gops, "SPoll")
+				gouts = append(gouts, "SPolled "+gBool(got))
+				if token && !got {
+					c14Oracle(v, false, "queue.ready:signal-lost", fmt.Sprintf("op %d: nothing to receive on ready() although an entry was pushed since the last receive (%d entries pending): a consumer that found the queue empty just before that push and now waits on ready() sleeps until some other push happens", i, len(deque)), meta)
+				} else if !token && got {
+					c14Oracle(v, false, "queue.ready:spurious-signal", fmt.Sprintf("op %d: ready() delivered a signal without a push since the last receive", i), meta)
+				} else {
+					c14Oracle(v, true, "", "", nil)
+				}
+				token = false
+			}
+		}
+		v.Seen(fmt.Sprintf("s%d|%s", capacity, strings.Join(ops, ",")), true, map[string]any{"ready_signal": meta})
+		v.Count("ready:" + stream)
+		v.Case(s, fmt.Sprintf("(%s, %s, %s)", gNat(capacity), gList(gops), gList(gouts)), meta)
+	}
+	// exhaustive: all sequences of push / pop / poll of length L on capacities 1 and 2
+	alphabet := []string{"push", "pop", "poll"}
+	L := v.Pick(6, 8)
+	total := 1
+	for i := 0; i < L; i++ {
+		total *= 3
+	}
+	for capacity := 1; capacity <= 2; capacity++ {
+		for code := 0; code < total; code++ {
+			ops := make([]string, L)
+			c := code
+			for i := range ops {
+				ops[i] = alphabet[c%3]
+				c /= 3
+			}
+			run("exhaustive", capacity, ops)
+		}
+	}
+	all := []string{"push", "pop", "poll", "len", "push", "poll"}
+	for i := 0; i < v.Pick(300, 4000); i++ {
+		ops := make([]string, 4+v.rng.Intn(30))
+		for j := range ops {
+			ops[j] = all[v.rng.Intn(len(all))]
+		}
+		run("random", 1+v.rng.Intn(6), ops)
+	}
+}
+
+type c14PingEv struct{ N int }
+
+// c14WakeStress: `loops` independent event loops, each with Run as consumer and one event in flight at a
+// time (the handler's reply lets the producer goroutine add the next event).  An event that is still
+// unhandled 200 ms after AddEvent returned, with nothing else going on, is a lost wake-up; one more AddEvent
+// then delivers both.  Measured on the tree before fixes/C14-ready-signal-not-lost.patch: 0.7 - 5 stalls
+// per 100,000 rounds with one loop and about 0.4 per 100,000 with four loops in parallel (16 cores), i.e. the
+// quick tier (4 x 300,000 rounds) misses it with probability of about 1 %, the thorough tier (8 x 2,500,000)
+// practically never.  The deterministic ready-signal stream above does not depend on scheduling.
+func c14WakeStress(v *verifOut) {
+	loops := v.Pick(4, 8)
+	rounds := v.Pick(300000, 2500000)
+	var wg sync.WaitGroup
+	type res struct{ stalls, done, first int }
+	out := make([]res, loops)
+	for l := 0; l < loops; l++ {
+		wg.Add(1)
+		go func(l int) {
+			defer wg.Done()
+			el := New(&c14Logger{drop: func(any) {}}, 16)
+			reply := make(chan int, 4)
+			Register(el, func(e c14PingEv) { reply <- e.N })
+			ctx, cancel := context.WithCancel(context.Background())
+			defer cancel()
+			go el.Run(ctx)
+			timer := time.NewTimer(time.Hour)
+			defer timer.Stop()
+			for i := 0; i < rounds; i++ {
+				el.AddEvent(c14PingEv{i})
+				if !timer.Stop() {
+					select {
+					case <-timer.C:
+					default:
+					}
+				}
+				timer.Reset(200 * time.Millisecond)
+				select {
+				case <-reply:
+				case <-timer.C:
+					out[l].stalls++
+					if out[l].stalls == 1 {
+						out[l].first = i
+					}
+					el.AddEvent(c14PingEv{-1}) // the nudge
+					a, b := <-reply, <-reply
+					if a != i || b != -1 {
+						out[l].stalls += 1000 // order broken as well
+					}
+				}
+				out[l].done++
+				if out[l].stalls >= 3 {
+					return
+				}
+			}
+		}(l)
+	}
+	wg.Wait()
+	for l, r := range out {
+		meta := map[string]any{"stream": "wake-stress", "loop": l, "rounds_done": r.done, "stalls": r.stalls, "first_stall_at_round": r.first}
+		c14Oracle(v, r.stalls == 0, "loop.run:event-not-handled-until-next-add",
+			fmt.Sprintf("ping-pong against el.Run (one event in flight, next AddEvent only after the handler's reply): %d time(s) in %d rounds an added event was still unhandled after 200 ms although the loop was idle (first at round %d); one more AddEvent delivered it -- the wake-up of the idle loop was lost", r.stalls%1000, r.done, r.first), meta)
+		c14Oracle(v, r.stalls < 1000, "loop.run:order-after-stall", "after the nudge the stalled event and the nudge were not delivered in order", meta)
+		v.Seen(fmt.Sprintf("ws|%d|%d", l, r.done), true, map[string]any{"wake_stress": meta})
+		v.CountN("wake-stress:rounds", r.done)
+		v.CountN("wake-stress:stalls", r.stalls%1000)
+	}
+}
+
+// c14ConcurrentPriority: for every event, the prioritised run-in-AddEvent handler (slow) must have finished
+// before the ordinary handler and after it the prioritised loop-side handler must come before the ordinary one.
+func c14ConcurrentPriority(v *verifOut) {
+	rounds := v.Pick(6, 60)
+	for round := 0; round < rounds; round++ {
+		producers := 1 + v.rng.Intn(3)
+		per := 40 + v.rng.Intn(v.Pick(60, 300))
+		slow := time.Duration(20+v.rng.Intn(200)) * time.Microsecond
+		meta := map[string]any{"stream": "concurrent-priority", "producers": producers, "per_producer": per, "slow_handler_us": slow.Microseconds(), "round": round}
+		el := New(&c14Logger{drop: func(any) {}}, uint(producers*per+1))
+		var seq atomic.Int64
+		type marks struct{ pAddEnd, pLoop, ord, nAdd, nLoop, nOrd int64 }
+		var mu sync.Mutex
+		m := map[uint64]*marks{}
+		get := func(ser uint64) *marks {
+			mu.Lock()
+			defer mu.Unlock()
+			if m[ser] == nil {
+				m[ser] = &marks{}
+			}
+			return m[ser]
+		}
+		Register(el, func(e c14Ev0) { x := get(e.Ser); x.ord = seq.Add(1); x.nOrd++ }) // ordinary, registered first
+		Register(el, func(e c14Ev0) {
+			time.Sleep(slow)
+			x := get(e.Ser)
+			x.pAddEnd = seq.Add(1)
+			x.nAdd++
+		}, Prioritize(), UnsafeRunInAddEvent())
+		Register(el, func(e c14Ev0) { x := get(e.Ser); x.pLoop = seq.Add(1); x.nLoop++ }, Prioritize())
+		ctx, cancel := context.WithCancel(context.Background())
+		rdone := make(chan struct{})
+		go func() { defer close(rdone); el.Run(ctx) }()
+		var wg sync.WaitGroup
+		for p := 0; p < producers; p++ {
+			wg.Add(1)
+			go func(p int) {
+				defer wg.Done()
+				for i := 1; i <= per; i++ {
+					el.AddEvent(c14Ev0{ID: uint64(i), Ser: uint64(p)<<32 | uint64(i)})
+				}
+			}(p)
+		}
+		wg.Wait()
+		cancel()
+		<-rdone
+		for el.Tick(context.Background()) {
+		}
+		ok := true
+		mu.Lock()
+		for ser, x := range m {
+			switch {
+			case x.nAdd != 1 || x.nLoop != 1 || x.nOrd != 1:
+				ok = false
+				c14Oracle(v, false, "loop.concurrent:not-exactly-once", fmt.Sprintf("event %#x: run-in-AddEvent handler ran %d times, prioritised handler %d, ordinary handler %d (want 1 each)", ser, x.nAdd, x.nLoop, x.nOrd), meta)
+			case x.pAddEnd > x.ord || x.pLoop > x.ord:
+				ok = false
+				c14Oracle(v, false, "loop.concurrent:ordinary-before-priority", fmt.Sprintf("event %#x: the ordinary handler ran (step %d) before a prioritised handler had finished (run-in-AddEvent one at step %d, loop-side one at step %d)", ser, x.ord, x.pAddEnd, x.pLoop), meta)
+			}
+			if !ok {
+				break
+			}
+		}
+		n := len(m)
+		mu.Unlock()
+		if ok {
+			c14Oracle(v, n == producers*per, "loop.concurrent:not-exactly-once", fmt.Sprintf("%d of %d events were seen by the handlers", n, producers*per), meta)
+		}
+		v.Seen(fmt.Sprintf("cp|%d|%d|%d", round, producers, per), true, map[string]any{"concurrent_priority": meta})
+		v.CountN("concurrent:priority-events", producers*per)
+	}
+}
+
 func TestVerifC14(t *testing.T) {
 	v := verifNew("C14")
 	c14QueueStreams(v)
 	c14LoopStreams(v)
 	c14ConcurrentStreams(v)
 	c14ConcurrentHardened(v)
+	c14ReadySignalStream(v)
+	c14ConcurrentPriority(v)
+	c14WakeStress(v)
 	v.Close("queue: op sequences on capacities 1..9, non-trivial = the sequence overflows or wraps around; loop: programs of add/defer/register/unregister/tick, non-trivial = overflow, deferred events or re-entrant handler calls occur")
 }
